@@ -305,9 +305,27 @@ func (ex *Exec) project(v Value, path []Sel) Value {
 			case BytesV:
 				v = ex.sel(a.node, s.idx)
 			case *ArrayV:
+				if !s.idx.isConst && len(a.elems) > 0 && len(a.elems) <= 4096 && k == len(path)-1 {
+					// symbolic index into an array of scalars: ite chain (no fork)
+					if t0, ok := a.elems[len(a.elems)-1].(*Term); ok {
+						r := t0
+						okAll := true
+						for j := len(a.elems) - 2; j >= 0; j-- {
+							tj, ok := a.elems[j].(*Term)
+							if !ok || tj.sort != t0.sort {
+								okAll = false
+								break
+							}
+							r = ex.ctx.Ite(ex.ctx.Eq(s.idx, c64(ex.ctx, uint64(j))), tj, r)
+						}
+						if okAll {
+							v = r
+							continue
+						}
+					}
+				}
 				i := ex.concretize(s.idx, len(a.elems), "array index")
 				v = a.elems[i]
-				_ = k
 			default:
 				ex.unsupported("project index of %T", v)
 			}
